@@ -5,6 +5,7 @@ import (
 	"fmt"
 	"strings"
 
+	cosmos_proto "github.com/cosmos/cosmos-proto"
 	"github.com/cosmos/cosmos-proto/anyutil"
 	"google.golang.org/protobuf/proto"
 	"google.golang.org/protobuf/reflect/protodesc"
@@ -80,7 +81,7 @@ func runC16(ctx *Ctx) {
 		c := &Case{Sub: "pack", Args: map[string]string{}}
 		c.Args["opts"] = rapid.SampledFrom([]string{"zero", "deterministic", "allowpartial"}).Draw(rt, "opts")
 		if rapid.IntRange(0, 5).Draw(rt, "wk") == 0 {
-			c.Args["wk"] = fmt.Sprint(rapid.IntRange(0, 7).Draw(rt, "wkidx"))
+			c.Args["wk"] = fmt.Sprint(rapid.IntRange(0, 8).Draw(rt, "wkidx"))
 			c.Args["n"] = fmt.Sprint(rapid.Int64().Draw(rt, "n"))
 			return c
 		}
@@ -148,7 +149,13 @@ func c16opts(s string) proto.MarshalOptions {
 }
 
 func wellKnown(i int, n int64) proto.Message {
-	switch i % 8 {
+	switch i % 9 {
+	case 8:
+		// a message with extension fields set (custom options of cosmos.proto)
+		o := &descriptorpb.MessageOptions{Deprecated: proto.Bool(n%2 == 0)}
+		proto.SetExtension(o, cosmos_proto.E_ImplementsInterface, []string{"cosmos.Msg", fmt.Sprint(n % 7)})
+		proto.SetExtension(o, cosmos_proto.E_MessageAddedIn, "v"+fmt.Sprint(n%100))
+		return o
 	case 0:
 		return &timestamppb.Timestamp{Seconds: n % 1e10, Nanos: int32(uint64(n) % 1e9)}
 	case 1:
@@ -242,6 +249,17 @@ func checkC16(ctx *Ctx, c *Case) error {
 		}
 		if got := model.Canon(u2.ProtoReflect(), model.Same); got != wantCanon {
 			return fmt.Errorf("Unpack (file registry) differs from m: %s", diffStr(got, wantCanon))
+		}
+		if c.arg("wk") != "" {
+			// extension fields are outside Canon: compare through deterministic bytes re-decoded with the global resolver
+			rt2 := m.ProtoReflect().New().Interface()
+			b2x, _ := det.Marshal(u2)
+			if err := proto.Unmarshal(b2x, rt2); err != nil || !proto.Equal(rt2, m) {
+				return fmt.Errorf("Unpack (file registry) of %s is not equal to the packed message (err=%v)", full, err)
+			}
+			if len(u2.ProtoReflect().GetUnknown()) != len(m.ProtoReflect().GetUnknown()) {
+				return fmt.Errorf("Unpack (file registry) of %s left %d bytes unparsed as unknown fields, the packed message has %d", full, len(u2.ProtoReflect().GetUnknown()), len(m.ProtoReflect().GetUnknown()))
+			}
 		}
 		b1, _ := det.Marshal(u1)
 		b2, _ := det.Marshal(u2)
